@@ -65,6 +65,7 @@ class SwapMonitor:
             self.deg[(v, d[NN.TOPOLOGY])] += 1
         self.deg0 = Counter(self.deg)
         self.motif0 = {k: set(v) for k, v in self.motif.items()}
+        self.touched_ids = set()
         self.nedges = G_in.number_of_edges()
         self.jd = {v: tuple(G_in.nodes[v][NN.JOINT_DEGREE]) for v in G_in.nodes()}
 
@@ -160,6 +161,15 @@ class SwapMonitor:
             a, b = tuple(e)
             d = G.edges[a, b]
             got[e] = (d.get(NN.TOPOLOGY), d.get(NN.MOTIF_IDS))
+        # C12(1): every created edge joins an allowed pairing - judged for the topology the created edge CARRIES, from the joint degrees
+        # the vertices were given; decided before the C11 clauses below, so that a swap which breaks both is still a witness for this one
+        for e, (t, i) in got.items():
+            a, b = tuple(e)
+            self.created += 1
+            self.forbidden_checked += 1
+            if t in self.target and not self.allowed(a, b, t):
+                self.fail("created-edge-joins-a-pairing-the-target-forbids", edge=(a, b), topology=t,
+                          pairing=[self.excess(a, t), self.excess(b, t)]); return
         ids_touched = {old[fs(e)][1] for e in e0s + e1s} | {i for _, i in got.values()}
         before = {i: set(self.motif.get(i, ())) for i in ids_touched}
         touched = set()
@@ -183,14 +193,6 @@ class SwapMonitor:
             if self.deg[k] != self.deg0[k]:
                 self.fail("per-topology-degree-of-a-vertex-changed", vertex=k[0], topology=k[1], got=self.deg[k], want=self.deg0[k],
                           u0=u0, v0=v0, e0s=e0s, e1s=e1s); return
-        # C12(1): every created edge joins an allowed pairing
-        for e, (t, i) in got.items():
-            a, b = tuple(e)
-            self.created += 1
-            self.forbidden_checked += 1
-            if t in self.target and not self.allowed(a, b, t):
-                self.fail("created-edge-joins-a-pairing-the-target-forbids", edge=(a, b), topology=t,
-                          pairing=[self.excess(a, t), self.excess(b, t)]); return
         # signature (classification only)
         id0 = {old[fs(e)][1] for e in e0s}
         id1 = {old[fs(e)][1] for e in e1s}
@@ -213,6 +215,36 @@ class SwapMonitor:
         if sig == "other":
             self.fail("new-corner-edges-do-not-take-over-topology-and-motif-id-of-the-edges-they-replace",
                       u0=u0, v0=v0, old={str(sorted(k)): v for k, v in old.items()}, new={str(sorted(k)): v for k, v in got.items()}); return
+        # shape clause where it can be decided independently of K1: both motifs are still exactly as given (no earlier swap touched
+        # them), so whatever motif ids the created edges carry, SOME way of giving half of them to each motif must give both motifs
+        # their shape back (the ideal swap does: the partner vertex simply takes the focal vertex's place).  A swap that moved only part
+        # of a corner, or paired corners of different positions of the motif, leaves no such way.
+        if len(id0) == 1 and len(id1) == 1 and id0 != id1 and not ((id0 | id1) & self.touched_ids):
+            i0, i1 = next(iter(id0)), next(iter(id1))
+            M0, M1 = self.motif0.get(i0, set()), self.motif0.get(i1, set())
+            R0, R1 = M0 - {fs(e) for e in e0s}, M1 - {fs(e) for e in e1s}
+            new = list(got)
+            n0 = len(M0) - len(R0)
+            from itertools import combinations as _comb
+            from math import comb as _ncomb
+            self.reach["swaps_between_two_untouched_motifs"] += 1
+            if len(new) == (len(M0) - len(R0)) + (len(M1) - len(R1)) and _ncomb(len(new), n0) <= 1000:
+                ideal = frozenset(e for e in new if v0 in e and u0 not in e)
+                cands = [ideal] + [frozenset(c) for c in _comb(new, n0)]
+                ok = False
+                for A in cands:
+                    if len(A) != n0:
+                        continue
+                    B = set(new) - A
+                    if self.same_shape(M0, R0 | A) and self.same_shape(M1, R1 | B):
+                        ok = True
+                        break
+                self.reach["untouched_motif_swaps_shape_decided"] += 1
+                if not ok:
+                    self.fail("swap-between-two-motifs-untouched-so-far-leaves-no-assignment-of-the-created-edges-that-gives-both-motifs-their-shape-back",
+                              u0=u0, v0=v0, removed_at_u0=e0s, removed_at_v0=e1s, created=[sorted(e, key=repr) for e in new],
+                              motif_of_u0=[sorted(e, key=repr) for e in M0], motif_of_v0=[sorted(e, key=repr) for e in M1]); return
+        self.touched_ids |= id0 | id1 | {i for _, i in got.values()}
         # shape check (the property's clause, swap by swap)
         broke = False
         for i in ids_touched:
